@@ -177,6 +177,50 @@ def selftest(chk, prop):
         chk.ok("SELFTEST", "SELFTEST/%s" % prop, "selftest/catalogue", "%d seeded mutants reported, %d benign edits silent" % (nm, nb))
 
 
+def patch_sets(chk, prop):
+    """the seeded changes written against this property (each must be reported, except the documented misses) and the
+    behaviour-preserving refactorings (each must stay silent), applied to scratch copies"""
+    import importlib.util
+    from concurrent.futures import ThreadPoolExecutor
+
+    def load(path, name):
+        spec = importlib.util.spec_from_file_location(name, path)
+        mod = importlib.util.module_from_spec(spec)
+        spec.loader.exec_module(mod)
+        return mod
+    t0 = time.time()
+    sd = os.path.join(VERIF, "seeded")
+    bd = os.path.join(VERIF, "benign")
+    misses = set()
+    try:
+        with open(os.path.join(sd, "KNOWN_MISSES.json")) as f:
+            misses = set(json.load(f)["undetected"])
+    except (OSError, ValueError, KeyError):
+        pass
+    SR = load(os.path.join(sd, "run.py"), "verif_seeded_run")
+    BR = load(os.path.join(bd, "run.py"), "verif_benign_run")
+    seeds = sorted(d for d in os.listdir(sd) if d.startswith(prop + "-") and os.path.exists(os.path.join(sd, d, "patch.diff")))
+    bens = sorted(d for d in os.listdir(bd) if os.path.exists(os.path.join(bd, d, "patch.diff")))
+    with ThreadPoolExecutor(max_workers=12) as ex:
+        sres = list(ex.map(lambda s_: SR.one(s_, lambda own: [prop]), seeds))
+        bres = list(ex.map(lambda b_: BR.one(bd, b_, [prop]), bens))
+    missed = [r["seed"] for r in sres if "error" not in r and not r["checks"].get(prop, {}).get("detected")]
+    unexpected = [m for m in missed if m not in misses]
+    errs = [r.get("seed") or r.get("id") for r in sres + bres if "error" in r]
+    loud = [r["id"] for r in bres if "error" not in r and (r["alarms"] or r["broken"])]
+    chk.notes["patch_sets"] = {"seeds": len(seeds), "seeds_detected": len(seeds) - len(missed), "documented_misses": sorted(set(missed) & misses),
+                               "benign_refactorings": len(bens), "benign_silent": len(bens) - len(loud), "wall_s": round(time.time() - t0, 1)}
+    for m in unexpected:
+        chk.broken("SEEDS", "SEEDS/%s" % m, "seeded/%s" % m, "the seeded change %s (a confirmed violation of %s) is reported" % (m, prop), "not reported")
+    for b in loud:
+        chk.broken("BENIGN", "BENIGN/%s" % b, "benign/%s" % b, "the behaviour-preserving refactoring %s leaves the check silent" % b, "not silent")
+    for e_ in errs:
+        chk.broken("PATCHSET", "PATCHSET/%s" % e_, "-", "the stored patch applies to the current tree", "does not apply")
+    if not unexpected and not loud and not errs:
+        chk.ok("PATCHSET", "PATCHSET/%s" % prop, "seeded/ benign/", "%d seeded changes reported (%d documented misses), %d refactorings silent"
+               % (len(seeds) - len(missed), len(set(missed) & misses), len(bens)))
+
+
 def lint_crossref(chk, prog):
     """generic tools, recorded for cross-reference only (never gating)"""
     out = {}
@@ -199,4 +243,5 @@ def extra(chk, prog, prop, mod):
         except AnalysisBroken as e:
             chk.broken("XEX", "XEX", "-", "cross-extraction possible", str(e))
     selftest(chk, prop)
+    patch_sets(chk, prop)
     lint_crossref(chk, prog)
